@@ -1,6 +1,7 @@
 (* C15 -- thinning, Euler number, convex hull.  thin_elems and the Euler tables are GENERATED from the sources. *)
 Require Import MV.Base.Prelude MV.Base.CInt MV.Base.Index.
 Require Import MV.Gen.Tables_gen MV.Model.Morph MV.Model.Topology MV.Proof.ExtremaProof MV.Proof.TopologyProof.
+Require Import MV.Proof.HullContain.
 
 (* thin returns a subset of its input (every pass of every iteration only deletes) *)
 Theorem C15_thin_subset : forall fuel img, pos_shape (shape img) ->
@@ -31,3 +32,27 @@ Proof. exact euler_tables_are_local_VEF. Qed.
 Theorem C15_hull_chain_convex_and_subset : forall lt pts,
   convex_top (rev (fst (scan lt pts))) /\ forall x, In x (fst (scan lt pts)) -> In x pts.
 Proof. exact scan_convex_subset. Qed.
+
+(* containment: for each monotone chain of the hull (given greatest vertex first) -- the vertices strictly increase in the scan
+   order, the chain runs from the least to the greatest input point, and EVERY input point q lies, in the slab b <= q <= a of
+   consecutive vertices that contains it, on the right of or on the edge b -> a.  The ascending scan gives one side of the polygon,
+   the descending scan (over the end points and the discarded points) the other: every foreground pixel is a vertex or lies
+   between the two chains.  The foreground pixels of a 2-D image are pairwise distinct, as the theorems require. *)
+Theorem C15_hull_ascending_chain_contains_all_points : forall pts, NoDup pts -> pts <> [] ->
+  let st := rev (fst (scan forward_lt pts)) in
+  st <> [] /\
+  edges_ok (fun b a => forward_lt b a = true) st /\
+  edges_ok (fun b a => forall q, In q pts -> (forward_lt b q = true \/ b = q) -> (forward_lt q a = true \/ q = a) -> is_left b a q <= 0) st /\
+  (forall q, In q pts -> (forward_lt (last st (0, 0)) q = true \/ last st (0, 0) = q) /\ (forward_lt q (hd (0, 0) st) = true \/ q = hd (0, 0) st)).
+Proof. exact forward_scan_contains. Qed.
+
+Theorem C15_hull_descending_chain_contains_all_points : forall pts, NoDup pts -> pts <> [] ->
+  let st := rev (fst (scan reverse_lt pts)) in
+  st <> [] /\
+  edges_ok (fun b a => reverse_lt b a = true) st /\
+  edges_ok (fun b a => forall q, In q pts -> (reverse_lt b q = true \/ b = q) -> (reverse_lt q a = true \/ q = a) -> is_left b a q <= 0) st /\
+  (forall q, In q pts -> (reverse_lt (last st (0, 0)) q = true \/ last st (0, 0) = q) /\ (reverse_lt q (hd (0, 0) st) = true \/ q = hd (0, 0) st)).
+Proof. exact reverse_scan_contains. Qed.
+
+Theorem C15_foreground_points_are_distinct : forall f h w, shape f = [h; w] -> 0 < h -> 0 < w -> NoDup (fg_points f).
+Proof. exact fg_points_nodup. Qed.
